@@ -1254,6 +1254,8 @@ def _renumber(tree):
             node.end_col_offset = 0
         for ch in ast.iter_child_nodes(node):
             rec(ch)
+        if hasattr(node, "end_lineno"):
+            node.end_lineno = k[0]      # number of the last node of the subtree: `x.lineno > n.end_lineno` means "after n"
     rec(tree)
 
 
